@@ -409,7 +409,8 @@ func builtinOf(name string, arity int) *builtinSpec {
 
 // common computes what is referable in every given scope.  self is excluded
 // (an unguarded self call would not terminate).
-func common(scopes []scope, self *sig, f14known, f1known bool) *gctx {
+func common(scopes []scope, self *sig, fl genFlags) *gctx {
+	f14known, f1known := fl.f14known, fl.f1known
 	g := &gctx{}
 	if len(scopes) == 0 {
 		return g
@@ -433,7 +434,7 @@ func common(scopes []scope, self *sig, f14known, f1known bool) *gctx {
 		ok := true
 		for _, sc := range scopes {
 			b := lookV(sc.v, v)
-			if b == nil || (f1known && b.viaInclude) {
+			if b == nil || (f1known && b.viaInclude) || (fl.f3known && b.rebound) {
 				ok = false
 				break
 			}
@@ -465,7 +466,7 @@ func common(scopes []scope, self *sig, f14known, f1known bool) *gctx {
 }
 
 type genFlags struct {
-	f14known, f1known bool
+	f14known, f1known, f3known bool
 }
 
 func drawPath(t *rapid.T, lay layout, used map[string]bool, prev []string, ext string, names []string) string {
@@ -685,7 +686,7 @@ func genTree(t *rapid.T, lay layout, fl genFlags) treeCase {
 			if len(scopes) == 0 {
 				continue
 			}
-			g := common(scopes, &sig{d.Name, len(d.Params)}, fl.f14known, fl.f1known)
+			g := common(scopes, &sig{d.Name, len(d.Params)}, fl)
 			g.params = d.Params
 			n := rapid.SampledFrom([]int{0, 1, 1, 1, 2, 2, 3}).Draw(t, "nbody")
 			for k := 0; k < n; k++ {
@@ -696,7 +697,7 @@ func genTree(t *rapid.T, lay layout, fl genFlags) treeCase {
 
 	// the main query calls every visible name
 	if ends := m1.ends[nFiles]; len(ends) == 1 {
-		g := common(ends, nil, fl.f14known, fl.f1known)
+		g := common(ends, nil, fl)
 		for _, s := range g.fc {
 			e := expr{K: "call", S: s.Name}
 			for i := 0; i < s.Arity; i++ {
